@@ -48,23 +48,28 @@ class ExtractError(Exception):
 
 
 class _ImportFails(Exception):
-    def __init__(self, what, line):
+    def __init__(self, what, line, kind="ModuleNotFoundError"):
         Exception.__init__(self, what)
         self.what = what
         self.line = line
+        self.kind = kind
 
 
 # --------------------------------------------------------------------------- constant folding
 def _only_version_names(node):
     for n in ast.walk(node):
         if isinstance(n, ast.Name):
-            if n.id != "sys":
+            if n.id not in ("sys", "os"):
                 return False
         elif isinstance(n, ast.Attribute):
-            # sys.version_info, sys.version_info.major/minor/micro
-            if n.attr not in ("version_info", "major", "minor", "micro"):
+            # sys.version_info[.major/minor/micro], sys.platform, os.name, ... and str tests on them
+            if n.attr not in ("version_info", "major", "minor", "micro", "platform", "name", "maxsize", "byteorder",
+                              "hexversion", "startswith", "endswith"):
                 return False
-        elif isinstance(n, (ast.Call, ast.Lambda, ast.Starred, ast.Await, ast.Yield, ast.YieldFrom,
+        elif isinstance(n, ast.Call):
+            if not (isinstance(n.func, ast.Attribute) and n.func.attr in ("startswith", "endswith")):
+                return False
+        elif isinstance(n, (ast.Lambda, ast.Starred, ast.Await, ast.Yield, ast.YieldFrom,
                             ast.ListComp, ast.SetComp, ast.DictComp, ast.GeneratorExp, ast.NamedExpr)):
             return False
     return any(isinstance(n, ast.Name) for n in ast.walk(node))
@@ -99,7 +104,7 @@ def fold(node):
                 return True
         if _only_version_names(node):
             try:
-                return bool(eval(compile(ast.Expression(body=node), "<fold>", "eval"), {"sys": sys, "__builtins__": {}}))
+                return bool(eval(compile(ast.Expression(body=node), "<fold>", "eval"), {"sys": sys, "os": os, "__builtins__": {}}))
             except Exception:   # noqa
                 return None
     return None
@@ -155,9 +160,18 @@ _IMPERR = ("ImportError", "ModuleNotFoundError", "Exception", "BaseException")
 
 
 # --------------------------------------------------------------------------- statements
-def stmt(op, line, mod="", pre=(), name="", sub="", bind="", val="", root="", rv="", links=()):
+def stmt(op, line, mod="", pre=(), name="", sub="", bind="", val="", root="", rv="", links=(), to=0):
+    # hI / hN / hA: position of the handler that runs when this statement raises an ImportError /
+    # NameError / AttributeError (0: not caught in this body); to: target of a jump / branch
     return {"op": op, "mod": mod, "pre": list(pre), "name": name, "sub": sub, "bind": bind, "val": val,
-            "root": root, "rv": rv, "links": list(links), "line": line}
+            "root": root, "rv": rv, "links": list(links), "line": line, "hI": 0, "hN": 0, "hA": 0, "to": to}
+
+
+class _Label(object):
+    """Position of a handler in a module body, known only after the try body has been emitted."""
+
+    def __init__(self):
+        self.pc = None
 
 
 class _Env(object):
@@ -222,6 +236,8 @@ class ModuleExtractor(object):
         self.funcs = []
         self.dyndefs = set()
         self.dynattr = False        # the module defines __getattr__ (PEP 562): any attribute of it may exist
+        self.hstack = []            # enclosing try statements of import-time code: {"I" / "N" / "A": _Label or None}
+        self.modfuncs = {}          # functions defined at module level: name -> record (calls at import time)
         with open(path) as f:
             self.src = f.read()
         import warnings
@@ -250,13 +266,23 @@ class ModuleExtractor(object):
         self.funcs.append(rec)
         return rec
 
+    def add(self, st):
+        """Append an import-time statement; it is protected by the nearest enclosing handlers."""
+        for cls in "INA":
+            for ctx in reversed(self.hstack):
+                if ctx[cls] is not None:
+                    st["h" + cls] = ctx[cls]
+                    break
+        self.body.append(st)
+        return st
+
     def emit(self, env, st):
         """An import-time statement (module body) or a call-time import (function record)."""
         if env.calltime:
             if st["op"] in ("import", "from", "star", "fail"):
                 env.func["imports"].append(st)
         else:
-            self.body.append(st)
+            self.add(st)
 
     # ------------------------------------------------------------------ references
     def ref_name(self, env, name, line):
@@ -282,7 +308,7 @@ class ModuleExtractor(object):
                 except KeyError:
                     glob = False
             if glob and not env.guard_name:
-                self.body.append(stmt("use", line, root=name))
+                self.add(stmt("use", line, root=name))
 
     def ref_chain(self, env, root, links, line):
         """root.l1.l2... evaluated (all links are loads)."""
@@ -307,7 +333,7 @@ class ModuleExtractor(object):
                         return
                 except KeyError:
                     return
-            self.body.append(stmt("use", line, root=root, links=links))
+            self.add(stmt("use", line, root=root, links=links))
 
     # ------------------------------------------------------------------ expressions
     def expr(self, env, node):
@@ -387,6 +413,11 @@ class ModuleExtractor(object):
         for child in ast.iter_child_nodes(node):
             if not isinstance(child, (ast.expr_context, ast.operator, ast.unaryop, ast.boolop, ast.cmpop)):
                 self.expr(env, child)
+        if (isinstance(node, ast.Call) and not env.calltime and isinstance(node.func, ast.Name)
+                and node.func.id in self.modfuncs and self.modfuncs[node.func.id]["imports"]):
+            # a function of this module called while the module is imported: its import statements run now
+            st = self.add(stmt("callf", node.lineno))
+            st["callee"] = self.modfuncs[node.func.id]
 
     def arguments(self, env, args):
         """Defaults and annotations are evaluated in the enclosing scope when the def statement runs."""
@@ -412,7 +443,7 @@ class ModuleExtractor(object):
         if env.calltime:
             env.localmods.pop(name, None)
         elif env.kind == "module":
-            self.body.append(stmt("def", line, bind=name, val=val))
+            self.add(stmt("def", line, bind=name, val=val))
         # class level bindings are class attributes, not module globals
 
     # ------------------------------------------------------------------ imports
@@ -460,7 +491,8 @@ class ModuleExtractor(object):
                 if al.name == "*":
                     raise ExtractError("%s:%d star import of an external module" % (self.path, node.lineno))
                 if not ext_available(src, al.name):
-                    raise _ImportFails("%s.%s" % (src, al.name), node.lineno)
+                    raise _ImportFails("%s.%s" % (src, al.name), node.lineno,
+                                       "ImportError" if ext_available(src) else "ModuleNotFoundError")
                 self.bind_name(env, bind, node.lineno, OBJ)
 
     # ------------------------------------------------------------------ statements
@@ -492,8 +524,10 @@ class ModuleExtractor(object):
                 frec["flows"].append(flow.restricted())
             self.block(sub, node.body)
             self.bind_name(env, node.name, node.lineno)
-            if not env.calltime and env.kind == "module" and node.name == "__getattr__":
-                self.dynattr = True
+            if not env.calltime and env.kind == "module":
+                self.modfuncs[node.name] = frec
+                if node.name == "__getattr__":
+                    self.dynattr = True
             return
         if isinstance(node, ast.ClassDef):
             self.expr(env, node.decorator_list)
@@ -514,6 +548,18 @@ class ModuleExtractor(object):
         if isinstance(node, ast.If):
             self.expr(env, node.test)
             f = fold(node.test)
+            if f is None and not env.calltime:
+                # import time, undecidable test: the model takes either branch
+                br = self.add(stmt("branch", node.lineno))
+                self.block(env, node.body)
+                jp = self.add(stmt("jump", node.lineno))
+                br["to"] = len(self.body) + 1
+                self.block(env, node.orelse)
+                jp["to"] = len(self.body) + 1
+                if len(self.body) >= 2 and self.body[-2] is br and self.body[-1] is jp:
+                    # nothing happens in either branch
+                    del self.body[-2:]
+                return
             if f is not False:
                 self.block(env, node.body)
             if f is not True:
@@ -570,7 +616,7 @@ class ModuleExtractor(object):
             for t in node.targets:
                 if isinstance(t, ast.Name):
                     if not env.calltime and env.kind == "module":
-                        self.body.append(stmt("del", node.lineno, bind=t.id))
+                        self.add(stmt("del", node.lineno, bind=t.id))
                 else:
                     self.expr(env, t)
             return
@@ -592,7 +638,54 @@ class ModuleExtractor(object):
         for child in ast.iter_child_nodes(node):
             self.expr(env, child)
 
+    def do_try_import_time(self, env, node):
+        """try statement in code that runs while the module is imported.  Layout in the module body:
+        body, jump ELSE, handler 1, jump END, handler 2, jump END, ELSE: orelse, END: finalbody.  A statement of
+        the body that raises continues at the first handler that catches the class of its exception."""
+        classes = {"I": _IMPERR, "N": _NAMEERR, "A": _ATTRERR}
+        ctx = dict((c, _Label() if any(_catches(h, names) for h in node.handlers) else None)
+                   for c, names in classes.items())
+        self.hstack.append(ctx)
+        failed = None
+        try:
+            self.block(env, node.body)
+        except _ImportFails as exc:
+            failed = exc        # an external module that is not installed: decided here, the rest of the body is dead
+        finally:
+            self.hstack.pop()
+
+        def handler_code(h):
+            start = len(self.body) + 1
+            for c, names in classes.items():
+                if ctx[c] is not None and ctx[c].pc is None and _catches(h, names):
+                    ctx[c].pc = start
+            if h.name:
+                self.bind_name(env, h.name, h.lineno)
+            self.block(env, h.body)
+            if h.name and env.kind == "module":
+                self.add(stmt("del", h.lineno, bind=h.name))
+
+        if failed is not None:
+            handler = next((h for h in node.handlers if _catches(h, _IMPERR)), None)
+            if handler is None:
+                self.block(env, node.finalbody)
+                raise failed
+            handler_code(handler)
+        else:
+            jelse = self.add(stmt("jump", node.lineno))
+            jends = []
+            for h in node.handlers:
+                handler_code(h)
+                jends.append(self.add(stmt("jump", h.lineno)))
+            jelse["to"] = len(self.body) + 1
+            self.block(env, node.orelse)
+            for j in jends:
+                j["to"] = len(self.body) + 1
+        self.block(env, node.finalbody)
+
     def do_try(self, env, node):
+        if not env.calltime:
+            return self.do_try_import_time(env, node)
         g_name, g_attr = env.guard_name, env.guard_attr
         if any(_catches(h, _NAMEERR) for h in node.handlers):
             env.guard_name = True
@@ -656,7 +749,11 @@ class ModuleExtractor(object):
         try:
             self.block(env, self.tree.body)
         except _ImportFails as exc:
-            self.body.append(stmt("fail", exc.line, name=exc.what))
+            self.add(stmt("fail", exc.line, name=exc.what, val=exc.kind))
+        for st in self.body:
+            for k in ("hI", "hN", "hA"):
+                if isinstance(st[k], _Label):
+                    st[k] = st[k].pc or 0
         for f in self.funcs:
             f["loads"] = [{"name": n, "line": ln} for n, ln in sorted(f["loads"].items())]
             f["chains"] = [{"root": r, "rv": rv, "links": list(ls), "line": ln}
@@ -677,6 +774,9 @@ class ModuleExtractor(object):
             seen[f["id"]] = k + 1
             if k:
                 f["id"] = "%s#%d" % (f["id"], k + 1)
+        for st in self.body:
+            if st["op"] == "callf":
+                st["name"] = st.pop("callee")["id"]
         return self
 
 
@@ -764,9 +864,10 @@ def _seq(xs):
 
 def _stmt_tla(st):
     return ("[op |-> %s, mod |-> %s, pre |-> %s, name |-> %s, sub |-> %s, bind |-> %s, val |-> %s, "
-            "root |-> %s, rv |-> %s, links |-> %s, line |-> %d]" % (
+            "root |-> %s, rv |-> %s, links |-> %s, line |-> %d, hI |-> %d, hN |-> %d, hA |-> %d, to |-> %d]" % (
                 _s(st["op"]), _s(st["mod"]), _seq(st["pre"]), _s(st["name"]), _s(st["sub"]), _s(st["bind"]),
-                _s(st["val"]), _s(st["root"]), _s(st["rv"]), _seq(st["links"]), st["line"]))
+                _s(st["val"]), _s(st["root"]), _s(st["rv"]), _seq(st["links"]), st["line"],
+                st["hI"], st["hN"], st["hA"], st["to"]))
 
 
 def _fun(pairs, empty="<<>>"):
